@@ -15,3 +15,19 @@ package arp
 //@                          when pre(rq.Err) == nil && mac != nil && rq.DstMAC == mac && rq.Err == nil && rq.DstIP == pre(rq.DstIP) && rq.DstPort == pre(rq.DstPort) -> continue
 //@   loop 0 row nomac:   [recv requests as (rq, true) ; call getMAC(pre(rq.DstIP)) as (mac) ; send result rq]
 //@                          when pre(rq.Err) == nil && mac == nil && rq.Err != nil -> continue
+
+// ---------------------------------------------------------------------------------------------
+// C14 / C11: the JSON encoder emits "ip", "mac", "vendor", each bound to its own field, in this order
+//@ func easyjsonD3b49167EncodeGithubComVByteCpuSxPkgScanArp
+//@   props C14 C11
+//@   observe RawByte, RawString, String
+//@   entry row object: [call RawByte(out, 123) ; call RawString(out, "\"ip\":") ; call String(out, in.IP) ; call RawString(out, ",\"mac\":") ; call String(out, in.MAC) ;
+//@                      call RawString(out, ",\"vendor\":") ; call String(out, in.Vendor) ; call RawByte(out, 125)] -> exit
+//@ func (ScanResult).MarshalJSON
+//@   props C14 C11
+//@   observe easyjsonD3b49167EncodeGithubComVByteCpuSxPkgScanArp, BuildBytes
+//@   entry row enc: [call easyjsonD3b49167EncodeGithubComVByteCpuSxPkgScanArp(bind_w, v) ; call BuildBytes(_, _) as (b)] when ret0 == b -> exit
+// de-duplication identity of an ARP result is the host address
+//@ func (*ScanResult).ID
+//@   props C14
+//@   ensures ret == r.IP
